@@ -45,12 +45,15 @@ func init() {
 				// mostly single-goroutine work; 4 Ps keep the barrier-released first calls genuinely parallel
 				{Name: "decode", Shards: 16, Timeout: tierDur(tier, 6, 40), Env: []string{"GOMAXPROCS=4"}},
 				{Name: "decode-race", Race: true, Shards: 8, Timeout: tierDur(tier, 6, 40), Env: []string{"GOMAXPROCS=4"}},
+				// stream half (c04_stream.go): segmentation / idle gaps / in-frame stalls / bad lengths on a real socket
+				{Name: "stream", Race: true, Shards: 12, Parallel: 6, Timeout: tierDur(tier, 6, 40), HangIsViolation: true},
 			}
 		},
 		Worker: c04Worker,
 		RequiredEvents: []string{"accepted_data", "accepted_control", "rejected_" + string(e37.RejLenBelow10), "rejected_" + string(e37.RejLenAboveCap),
 			"rejected_" + string(e37.RejLenMismatch), "rejected_" + string(e37.RejPType), "rejected_" + string(e37.RejSType), "rejected_" + string(e37.RejShortPrefix),
-			"payload_accepted", "payload_rejected", "invalid_body_frames_accepted", "holders_checked", "holder_calls", "concurrent_first_call_groups", "huge_inputs"},
+			"payload_accepted", "payload_rejected", "invalid_body_frames_accepted", "holders_checked", "holder_calls", "concurrent_first_call_groups", "huge_inputs",
+			"segmentations_checked", "stream_messages_delivered_identical", "idle_gaps_survived", "in_frame_stalls_dropped", "slow_steady_frames_delivered", "bad_lengths_dropped"},
 	})
 }
 
